@@ -81,6 +81,14 @@ theorem recvPriority_ctl (c : H2Conn) (sid len dep : Nat) : AllCtl (recvPriority
     | exact AllCtl.nil
     | exact AllCtl.cons rfl AllCtl.nil
 
+theorem recvPriorityUpdate_ctl (c : H2Conn) (sid len prid prio : Nat) :
+    AllCtl (recvPriorityUpdate c sid len prid prio).2 := by
+  unfold recvPriorityUpdate
+  repeat' split
+  all_goals first
+    | exact sendGoaway_ctl _ _
+    | exact AllCtl.nil
+
 theorem recvGoaway_ctl (c : H2Conn) (sid len code : Nat) : AllCtl (recvGoaway c sid len code).2 := by
   unfold recvGoaway
   split
@@ -89,7 +97,7 @@ theorem recvGoaway_ctl (c : H2Conn) (sid len code : Nat) : AllCtl (recvGoaway c 
     · exact sendGoaway_ctl _ _
     · simp only; exact sendGoaway_ctl _ _
 
-theorem recvPing_ctl (c : H2Conn) (ack : Bool) (sid len : Nat) : AllCtl (recvPing c ack sid len).2 := by
+theorem recvPing_ctl (c : H2Conn) (ack : Bool) (sid len : Nat) (o : Bytes) : AllCtl (recvPing c ack sid len o).2 := by
   unfold recvPing
   repeat' split
   all_goals first
@@ -193,8 +201,10 @@ theorem recvData_ctl (c : H2Conn) (sid len : Nat) (pad : Option Nat) (es : Bool)
 
 theorem refuseStream_ctl (c : H2Conn) (sid : Nat) : AllCtl (refuseStream c sid).2 := by
   unfold refuseStream
-  simp only
-  exact AllCtl.cons rfl (ite_res_ctl _ _ _ (sendGoaway_ctl _ _) AllCtl.nil)
+  split
+  · exact sendGoaway_ctl _ _
+  · simp only
+    exact AllCtl.cons rfl (ite_res_ctl _ _ _ (sendGoaway_ctl _ _) AllCtl.nil)
 
 theorem recvTrailers_ctl (c : H2Conn) (sid : Nat) (kind : HdrKind) (es : Bool) :
     AllCtl (recvTrailers c sid kind es).2 := by
@@ -245,7 +255,8 @@ theorem recvFrame_ctl (c : H2Conn) (f : FrameIn) : AllCtl (recvFrame c f).2 := b
   · cases f with
     | oversize => exact sendGoaway_ctl _ _
     | settings ack sid ps junk => exact recvSettings_ctl _ _ _ _ _
-    | ping ack sid len => exact recvPing_ctl _ _ _ _
+    | ping ack sid len o => exact recvPing_ctl _ _ _ _ _
+    | priorityUpdate sid len prid prio => exact recvPriorityUpdate_ctl _ _ _ _ _
     | windowUpdate sid len inc => exact recvWindowUpdate_ctl _ _ _ _
     | rstStream sid len code => exact recvRstStream_ctl _ _ _
     | priority sid len dep => exact recvPriority_ctl _ _ _ _
@@ -472,22 +483,57 @@ theorem recvPriority_len (c : H2Conn) (sid len dep : Nat) :
   repeat' split
   all_goals simp
 
+theorem reprio_len (l : List Strm) (i : Nat) (s : Strm) (hi : i < l.length) :
+    (reprio l i s).length = l.length := by
+  unfold reprio
+  have htd := congrArg List.length (List.takeWhile_append_dropWhile (p := fun x => x.lt s) (l := l.drop (i + 1)))
+  simp only [List.length_append, List.length_drop] at htd
+  split
+  · simp only [List.length_append, List.length_take, List.length_drop, List.length_cons, List.length_nil]
+    omega
+  · simp only [List.length_append, List.length_take, List.length_cons, List.length_nil]
+    omega
+
+theorem findIdx_lt_of_find (l : List Strm) (p : Strm → Bool) (s : Strm) (h : l.find? p = some s) :
+    l.findIdx p < l.length := by
+  apply List.findIdx_lt_length_of_exists
+  exact ⟨s, List.mem_of_find?_eq_some h, List.find?_some h⟩
+
+theorem recvPriorityUpdate_len (c : H2Conn) (sid len prid prio : Nat) :
+    (recvPriorityUpdate c sid len prid prio).1.streams.length = c.streams.length := by
+  unfold recvPriorityUpdate
+  split
+  · simp
+  · split
+    · simp
+    · split
+      · simp
+      · split
+        · rfl
+        · rename_i s hs
+          split
+          · rfl
+          · simp only
+            exact reprio_len _ _ _ (findIdx_lt_of_find _ _ s hs)
+
 theorem recvGoaway_len (c : H2Conn) (sid len code : Nat) :
     (recvGoaway c sid len code).1.streams.length = c.streams.length := by
   unfold recvGoaway
   repeat' split
   all_goals simp
 
-theorem recvPing_len (c : H2Conn) (ack : Bool) (sid len : Nat) :
-    (recvPing c ack sid len).1.streams.length = c.streams.length := by
+theorem recvPing_len (c : H2Conn) (ack : Bool) (sid len : Nat) (o : Bytes) :
+    (recvPing c ack sid len o).1.streams.length = c.streams.length := by
   unfold recvPing
   repeat' split
   all_goals simp
 
 theorem refuseStream_len (c : H2Conn) (sid : Nat) : (refuseStream c sid).1.streams.length = c.streams.length := by
   unfold refuseStream
-  simp only
-  split <;> simp
+  split
+  · simp
+  · simp only
+    split <;> split <;> simp
 
 theorem recvTrailers_len (c : H2Conn) (sid : Nat) (kind : HdrKind) (es : Bool) :
     (recvTrailers c sid kind es).1.streams.length = c.streams.length := by
@@ -544,7 +590,8 @@ theorem recvFrame_len_le (c : H2Conn) (f : FrameIn) (h : c.streams.length ≤ Ex
   · cases f with
     | oversize => simpa using h
     | settings ack sid ps junk => simp only; rw [recvSettings_len]; exact h
-    | ping ack sid len => simp only; rw [recvPing_len]; exact h
+    | ping ack sid len o => simp only; rw [recvPing_len]; exact h
+    | priorityUpdate sid len prid prio => simp only; rw [recvPriorityUpdate_len]; exact h
     | windowUpdate sid len inc => simp only; rw [recvWindowUpdate_len]; exact h
     | rstStream sid len code => simp only; rw [recvRstStream_len]; exact h
     | priority sid len dep => simp only; rw [recvPriority_len]; exact h
@@ -560,15 +607,15 @@ theorem recvFrame_len_le (c : H2Conn) (f : FrameIn) (h : c.streams.length ≤ Ex
     | unknown t => exact h
     | contFlood => simpa using h
 
-theorem passAux_len_le : ∀ (ss : List Strm) (cswin : Int) (budget : Nat),
-    (passAux cswin budget ss).streams.length ≤ ss.length := by
+theorem passAux_len_le (fsize : Nat) : ∀ (ss : List Strm) (cswin : Int) (budget : Nat),
+    (passAux fsize cswin budget ss).streams.length ≤ ss.length := by
   intro ss
   induction ss with
   | nil => intro _ _; simp [passAux]
   | cons s rest ih =>
     intro cswin budget
     simp only [passAux]
-    generalize strmTurn cswin budget s = t
+    generalize strmTurn fsize cswin budget s = t
     obtain ⟨t1, t2, t3, t4⟩ := t
     have := ih (cswin - t3) (budget - t3)
     cases t1 <;> simp <;> omega
@@ -581,14 +628,19 @@ theorem processPass_len_le (c : H2Conn) (budget : Nat) :
   · split
     · simp
     · simp only
-      exact passAux_len_le _ _ _
+      exact passAux_len_le _ _ _ _
 
-theorem preSlot_len_le (c : H2Conn) (f : FrameIn) :
-    (preSlot c f).1.streams.length ≤ c.streams.length := by
-  unfold preSlot
-  split
-  · exact processPass_len_le _ _
-  · exact Nat.le_refl _
+theorem preSlot_len_le : ∀ (fuel : Nat) (c : H2Conn) (f : FrameIn),
+    (preSlot fuel c f).1.streams.length ≤ c.streams.length := by
+  intro fuel
+  induction fuel with
+  | zero => intro c f; exact Nat.le_refl _
+  | succ n ih =>
+    intro c f
+    unfold preSlot
+    split
+    · exact Nat.le_trans (ih _ _) (processPass_len_le _ _)
+    · exact Nat.le_refl _
 
 theorem postStop_len_le (c : H2Conn) :
     (postStop c).1.streams.length ≤ c.streams.length := by
@@ -608,7 +660,7 @@ theorem recvBatch_len_le : ∀ (fs : List FrameIn) (c : H2Conn),
     simp only [recvBatch]
     apply ihf
     exact Nat.le_trans (postStop_len_le _)
-      (recvFrame_len_le _ f (Nat.le_trans (preSlot_len_le c f) h))
+      (recvFrame_len_le _ f (Nat.le_trans (preSlot_len_le 4096 c f) h))
 
 theorem processQuiesce_len_le : ∀ (fuel : Nat) (c : H2Conn),
     (processQuiesce fuel c).1.streams.length ≤ c.streams.length := by
